@@ -27,8 +27,25 @@ def tweak(rng, sc):
             ann = dict(st.get("ann") or {})
             ann["paused-reconcile"] = "true"
             st["ann"] = ann
-        elif r < 0.9:
+        elif r < 0.75:
             st["deleting"] = True
+    if 0.75 <= r < 0.92 and sc["api"].get("set") and sc["cache"].get("set"):
+        # the deletion has reached the API server but not the informer cache yet; something is there to adopt:
+        # the fresh read before an adoption must show the deletion
+        sc["api"]["set"]["deleting"] = True
+        sc["cache"]["set"]["deleting"] = False
+        for rv in sc["api"]["revs"]:
+            if rng.random() < 0.6:
+                rv["owner"] = None
+        for w in (sc["api"], sc["cache"]):
+            st = rng.getstate()
+            for p in w["pods"]:
+                if rng.random() < 0.35:
+                    p["owner"] = None
+                    p["term"] = False
+            rng.setstate(st)
+        for p in sc["api"]["pods"]:
+            rng.random()
     return sc
 
 
